@@ -329,6 +329,20 @@ class Env:
             raise CheckFailed(label)
         return False
 
+    # comparisons: exact in symbolic mode, with a rounding slack on floats
+    def le(self, a, b):
+        if self.mode == "sym":
+            return a <= b
+        return a <= b + 1e-9 * (1 + abs(a) + abs(b))
+
+    def ge(self, a, b):
+        return self.le(b, a)
+
+    def eqv(self, a, b):
+        if self.mode == "sym":
+            return a == b
+        return abs(a - b) <= 1e-9 * (1 + abs(a) + abs(b))
+
     def check_raises(self, fn: Callable, exc, label: str):
         """`fn()` must raise one of `exc` (on every path / for these values)."""
         try:
@@ -348,3 +362,33 @@ class Env:
         import z3
 
         return self._discharge(z3.BoolVal(True), label + (f" [{detail}]" if detail else ""), [])
+
+
+# -- boolean connectives that work for Python bools and SymBool alike -------
+def b_not(a):
+    from .poly import SymBool
+
+    return ~a if isinstance(a, SymBool) else (not bool(a))
+
+
+def b_and(*xs):
+    from .poly import sym_and
+
+    return sym_and(*xs)
+
+
+def b_or(*xs):
+    from .poly import sym_or
+
+    return sym_or(*xs)
+
+
+def b_implies(a, b):
+    return b_or(b_not(a), b)
+
+
+def scalar(x):
+    """0-d tensor / number -> scalar usable in comparisons in every mode."""
+    if hasattr(x, "item") and not isinstance(x, (int, float, complex)):
+        x = x.item()
+    return x
